@@ -62,6 +62,13 @@ fn hash_order_hostile(r: &mut Rng) -> String {
 
 /// programs that fail inside a library function on their data (invalid regular expression, format arity): the
 /// failure must be the same whatever ran before in the process — nothing may be remembered from one call to the next
+/// scan arms that can match at the same position: which arm runs must depend on the text only, not on which arm ran last in
+/// an earlier execution of the same loaded file
+fn scan_history_hostile(r: &mut Rng) -> String {
+    let (a1, a2) = *r.pick(&[("a", "[a-z]"), ("[a-c]", "[a-z]+"), ("ab", "a"), ("[a-z]", "[a-z0-9]")]);
+    format!("(identifier) @id {{\n  scan (source-text @id) {{\n    \"{}\" {{\n      node h1\n      attr (h1) arm = \"first\", t = $0\n    }}\n    \"{}\" {{\n      node h2\n      attr (h2) arm = \"second\", t = $0\n    }}\n  }}\n}}\n", a1, a2)
+}
+
 fn history_hostile(r: &mut Rng) -> String {
     let bad = *r.pick(&["(", "[z-a]", "a{2,1}", "(?P<n>", "\\"]);
     let subject = *r.pick(&["a-b-c", "abc", "x(y"]);
@@ -126,7 +133,7 @@ pub fn child(seed: u64, n: usize, only: Option<usize>) {
         let mut r = root.fork(pi as u64);
         let opts = opts_for(pi, &mut r);
         let program = gen_program(&mut r, &pool, &opts);
-        let text = if pi % 11 == 10 { history_hostile(&mut r) } else if pi % 5 == 4 { faulty_variant(&mut r, &program.text) } else if pi % 7 == 6 { hash_order_hostile(&mut r) } else { program.text.clone() };
+        let text = if pi % 11 == 10 { history_hostile(&mut r) } else if pi % 11 == 9 { scan_history_hostile(&mut r) } else if pi % 5 == 4 { faulty_variant(&mut r, &program.text) } else if pi % 7 == 6 { hash_order_hostile(&mut r) } else { program.text.clone() };
         let source = gen_source(&mut r, true, false);
         let globals = supply_globals(&mut r, &program);
         println!("{}", transcript(&text, &source.src, &globals));
@@ -189,7 +196,7 @@ pub fn run(rep: &mut Report, tier: &str, seed: u64) {
         let mut r = root.fork(pi as u64);
         let opts = opts_for(pi, &mut r);
         let program = gen_program(&mut r, &pool, &opts);
-        let text = if pi % 11 == 10 { history_hostile(&mut r) } else if pi % 5 == 4 { faulty_variant(&mut r, &program.text) } else if pi % 7 == 6 { hash_order_hostile(&mut r) } else { program.text.clone() };
+        let text = if pi % 11 == 10 { history_hostile(&mut r) } else if pi % 11 == 9 { scan_history_hostile(&mut r) } else if pi % 5 == 4 { faulty_variant(&mut r, &program.text) } else if pi % 7 == 6 { hash_order_hostile(&mut r) } else { program.text.clone() };
         let _ = gen_source(&mut r, true, false); // keep the PRNG stream aligned with `child`
         let globals = supply_globals(&mut r, &program);
         // (1) repeated loading
@@ -216,6 +223,8 @@ pub fn run(rep: &mut Report, tier: &str, seed: u64) {
             let good = *r.pick(&["-", "b", "[a-c]"]);
             let bad = *r.pick(&["(", "[z-a]", "a{2,1}"]);
             [good, bad, bad].iter().map(|p| { let src = format!("x = \"{}\"\n", p); let tree = crate::tree::parse_python(&src); Source { src, tree } }).collect()
+        } else if pi % 11 == 9 {
+            ["ab = ba\n", "a = b\n", "ba = a0\n"].iter().map(|src| { let src = src.to_string(); let tree = crate::tree::parse_python(&src); Source { src, tree } }).collect()
         } else {
             sources
         };
@@ -226,7 +235,24 @@ pub fn run(rep: &mut Report, tier: &str, seed: u64) {
             let ir = run_impl(&file, &sources[i].tree, &sources[i].src, &infos[i], &cfg);
             format!("{}|{}|globals-changed={}", ir.outcome.to_text(), ir.graph.map(|g| g.to_text()).unwrap_or_default(), GLOBALS_CHANGED.with(|c| c.get()))
         };
+        // reference: every (tree, mode) on a FRESHLY loaded file — a loaded file that was used before must behave like a new one
+        let fresh: Vec<String> = (0..3).flat_map(|i| [false, true].map(|lazy| {
+            match load(&text) {
+                Ok(Ok(f2)) => {
+                    let cfg = RunCfg { lazy, globals: globals.clone(), outer_globals: vec![], debug: None, cancel_at: None };
+                    let ir = run_impl(&f2, &sources[i].tree, &sources[i].src, &infos[i], &cfg);
+                    format!("{}|{}", ir.outcome.to_text(), ir.graph.map(|g| g.to_text()).unwrap_or_default())
+                }
+                _ => "not-loadable".to_string(),
+            }
+        })).collect();
         let isolated: Vec<String> = (0..3).flat_map(|i| [run_one(i, false), run_one(i, true)]).collect();
+        if isolated.iter().zip(fresh.iter()).any(|(a, b)| !a.starts_with(b.as_str())) {
+            rep.fail("direct", "C12 a loaded file that was executed before gives a different result than a freshly loaded one", true,
+                json!({"tsg": text, "sources": sources.iter().map(|s| s.src.clone()).collect::<Vec<_>>()}));
+        } else {
+            rep.count("reuse-vs-fresh-load-checked");
+        }
         let matches: usize = (0..3).map(|i| crate::execx::model_input(&file, &sources[i].tree, &sources[i].src, &infos[i]).n_matches).sum();
         rep.case(&format!("{}\u{0}{}", text, sources[0].src), matches > 0);
         if rep.samples.len() < 2 {
